@@ -255,7 +255,7 @@ class Ctx:
                         log(out[-3000:])
                         raise ToolError("monitor violated but no position found (%s)" % name)
                     fail_line = max(1, st["last_l"] - 1)   # the state after consuming this line is bad
-                    what = re.findall(r'<<"UNEXPLAINED",\s*(<<[^>]*>>)', out)
+                    what = re.findall(r'<<"UNEXPLAINED",\s*((?:<<[^>]*>>|[^<>])*?)>>', out)
                     reason = "monitor %s fails%s after event" % (st["violated"], (" for " + "; ".join(sorted(set(what))[:4])) if what else "")
                 elif st.get("tool_error"):
                     log(out[-3000:])
